@@ -708,12 +708,12 @@ func toInts(t []int32) []int {
 
 type hcall struct {
 	bytes []value
-	h     sym
+	h     value // uint64 (concrete input) or sym
 }
 
-// hashStub returns a 64-bit hash for a byte sequence with symbolic parts:
-// a fresh constant constrained to be a function of the bytes and injective
-// w.r.t. every other call on this path (assumption H-fnv).
+// hashStub returns a 64-bit hash for a byte sequence: the real FNV value for concrete input,
+// otherwise a fresh constant constrained to be a function of the bytes and injective w.r.t.
+// every other call on this path, concrete ones included (assumption H-fnv).
 func (ps *PathState) hashStub(bs []value, concrete func([]byte) uint64) value {
 	allC := true
 	for _, b := range bs {
@@ -721,13 +721,6 @@ func (ps *PathState) hashStub(bs []value, concrete func([]byte) uint64) value {
 			allC = false
 			break
 		}
-	}
-	if allC {
-		raw := make([]byte, len(bs))
-		for k, b := range bs {
-			raw[k] = b.(uint8)
-		}
-		return concrete(raw)
 	}
 	key := func(b []value) string {
 		var sb strings.Builder
@@ -743,22 +736,37 @@ func (ps *PathState) hashStub(bs []value, concrete func([]byte) uint64) value {
 			return c.h
 		}
 	}
-	h := ps.fresh("h", kU64)
+	var h value
+	if allC {
+		raw := make([]byte, len(bs))
+		for k, b := range bs {
+			raw[k] = b.(uint8)
+		}
+		h = concrete(raw)
+	} else {
+		h = ps.fresh("h", kU64)
+	}
+	ht := term(h)
 	for _, c := range ps.hcalls {
+		_, cConcrete := c.h.(uint64)
+		if allC && cConcrete {
+			continue // two concrete calls: real values, nothing to assume
+		}
+		ct := term(c.h)
 		if len(c.bytes) != len(bs) {
-			ps.assertTerm("(not (= " + h.t + " " + c.h.t + "))")
+			ps.assertTerm("(not (= " + ht + " " + ct + "))")
 			continue
 		}
 		eq := symEqBytes(bs, c.bytes)
 		switch e := eq.(type) {
 		case bool:
 			if e {
-				ps.assertTerm("(= " + h.t + " " + c.h.t + ")")
+				ps.assertTerm("(= " + ht + " " + ct + ")")
 			} else {
-				ps.assertTerm("(not (= " + h.t + " " + c.h.t + "))")
+				ps.assertTerm("(not (= " + ht + " " + ct + "))")
 			}
 		case sym:
-			ps.assertTerm("(= (= " + h.t + " " + c.h.t + ") " + e.t + ")")
+			ps.assertTerm("(= (= " + ht + " " + ct + ") " + e.t + ")")
 		}
 	}
 	cp := make([]value, len(bs))
